@@ -1692,6 +1692,23 @@ impl PeerConnection {
                     }
                 }
 
+                if found_transceiver.is_none() && mid.is_empty() {
+                    // MID-less section: pair it positionally with the first unused
+                    // same-kind transceiver, exactly as answer generation does, so
+                    // that both steps agree on which transceiver a section drives.
+                    if let Some((idx, t)) = transceivers
+                        .iter()
+                        .enumerate()
+                        .find(|(idx, t)| !used_indices.contains(idx) && t.kind() == section.kind)
+                    {
+                        if t.mid().is_none() {
+                            t.set_mid(mid.clone());
+                            newly_matched = true;
+                        }
+                        found_transceiver = Some((idx, t.clone()));
+                    }
+                }
+
                 if found_transceiver.is_none() {
                     // Try to find a transceiver with no MID and same kind
                     for (idx, t) in transceivers.iter().enumerate() {
